@@ -43,6 +43,16 @@ CHECKS = {
             "Every text (TLC token soups over the grammar alphabet, mutations/splices of shipped scripts and book examples, literal spellings incl. over-long ones, nesting to 64, generated programs) is compiled three times in one process at shuffled positions; the compile/behaviour events are validated by the TLA+ acceptor XrCompile (same text => same outcome and behaviour; a panic or hang has no action) and the resource traces by XrRuntime (nothing between CompileBegin and CompileEnd).",
             "The text space is sampled; hangs are detected by a 20 s watchdog per compilation.",
             "DESIGN.md 6 C12"),
+    "C03": ("model_checking",
+            "TLA+ reference semantics (XrEval environments = lexical scoping; XrScope static forward rule) evaluated by TLC; replay",
+            "TLC evaluates scope-heavy generated programs (nesting to depth 4, captures at any distance, shadowing chains, escaping closures, defaults with output, recursion), hand-written scope shapes, every order of forward declaration / use / fulfilment (XrScope predicts MissingForwardImplementation), and all pairs of an identifier-spelling pool; the interpreter must reproduce bindings, results and output.",
+            "Known findings: forward-dependent lambdas / aliases can be invoked before fulfilment (compiler tracks forward requirements for names only). Keyword-prefixed identifiers (truex) are rejected by the grammar in expression position and are outside the pool.",
+            "DESIGN.md 6 C03"),
+    "C04": ("model_checking",
+            "TLA+ type algebra (XrTypes: Assignable, CommonType, lattice laws) enumerated exhaustively by TLC; verdicts replayed into the compiler",
+            "TLC enumerates every (required, supplied) pair of the type universe, checks the lattice laws of the documented rules on it, and emits verdict and common type; the compiler must accept exactly the assignable pairs in each syntactic position (typed let, argument, field, variant payload, return, annotated element) and infer Sequence<CommonType> for two-element literals. Supplied callables are tried both as lambdas and as values of a declared callable type.",
+            "Supplied types whose canonical inhabitant does not have exactly that static type (probed through the compiler) are skipped; required types containing unknown are not expressible; callable joins are not compared.",
+            "DESIGN.md 6 C04"),
 }
 
 NOT_YET = {}
